@@ -110,7 +110,8 @@ def document(a, canary, dtd, port):
         ent = 'v'
     extra_attrs = ''.join(' a%d="1"' % i for i in range(int(k[6:]))) if k.startswith('attrs_') else ''
     in_attr = k not in ('xinclude_file',) and not k.startswith('nest_')
-    s = 'a' + (ent if pos == 'text_unicode' else '') + 'b'
+    ctrl = '\x0b' if a.get('framing') == 'ctrl_char' else ''
+    s = ctrl + 'a' + (ent if pos == 'text_unicode' else '') + 'b'
     n = ('5' + (ent if pos == 'text_integer' and not k.startswith('nest_') and k != 'xinclude_file' else '')) if pos == 'text_integer' else '5'
     if pos == 'text_integer' and (k.startswith('nest_') or k == 'xinclude_file'):
         n = '5' + ent
